@@ -4,7 +4,8 @@ Grid.tla works in the grid parameter with exact rationals: nearest node(s)
 for every node, for points +-1/8 of a cell around every cell boundary, for
 exact midpoints (either neighbour) and for points outside the box (clamped);
 scaling to [0, 1]; the flat-grid order; the empirical CDF as a right-continuous
-step function.  Replay maps every parameter into many boxes (uniform grid:
+step function; the Dvoretzky-Kiefer-Wolfowitz band around it (rational
+half-width, clipping to [0, 1]).  Replay maps every parameter into many boxes (uniform grid:
 affine; Chebyshev grid: through the cosine, mirror) and compares indices
 exactly, points at 4 ulp of max(|a|, |b|).
 """
@@ -87,6 +88,25 @@ def run(ctx):
             ctx.check(I.shape == ref.shape and np.array_equal(I, ref), 'grid_flat:order', 'grid_flat(%s) does not enumerate the multi-indices with the first index fastest' % c['shape'], case=row)
             I2 = teneva.grid_flat(np.array(c['shape']))
             ctx.check(np.array_equal(I2, ref), 'grid_flat:array-arg', 'list and array arguments disagree', case=row)
+        elif c['kind'] == 'band':
+            # DKW band: alpha is chosen so that the routine's half-width sqrt(ln(2 / alpha) / (2 m)) is the specified rational
+            m, eps = c['m'], c['eps'] / 64.
+            alpha = 2. * np.exp(-2. * m * eps * eps)
+            x = np.arange(1, m + 1) / m
+            lo_ref = np.array([p / q for p, q in e['lo']]); hi_ref = np.array([p / q for p, q in e['hi']])
+            ctx.case(key=('band', m, c['eps']), nontrivial=bool(lo_ref.min() == 0. or hi_ref.max() == 1.) and m > 1)
+            for xs in (x, x.copy()[::-1][::-1], x.astype(np.float32).astype(float)):
+                lo, hi = teneva.cdf_confidence(xs, alpha)
+                lo = np.asarray(lo, dtype=float); hi = np.asarray(hi, dtype=float)
+                ctx.check(lo.shape == (m,) and hi.shape == (m,) and np.abs(lo - lo_ref).max() <= 1e-6 * max(eps, 1e-3) + 1e-7 * (xs is not x) and np.abs(hi - hi_ref).max() <= 1e-6 * max(eps, 1e-3) + 1e-7 * (xs is not x),
+                          'cdf_confidence:band', 'cdf_confidence(k/m for m=%d, alpha=%.6g): band (%s, %s) differs from the clipped band of half-width %g' % (m, alpha, lo, hi, eps), case=row)
+                ctx.check(bool(np.all(lo >= 0.) and np.all(hi <= 1.) and np.all(lo <= xs + 1e-15) and np.all(xs <= hi + 1e-15)), 'cdf_confidence:contains',
+                          'the band leaves [0, 1] or does not contain the empirical CDF', case=row)
+            # default alpha = 0.05 : half-width from the formula, for the same sample
+            lo, hi = teneva.cdf_confidence(x)
+            e05 = float(np.sqrt(np.log(40.) / (2 * m)))
+            ctx.check(np.abs(np.asarray(lo) - np.clip(x - e05, 0, 1)).max() <= 1e-12 and np.abs(np.asarray(hi) - np.clip(x + e05, 0, 1)).max() <= 1e-12, 'cdf_confidence:default',
+                      'default alpha is not 0.05 (m=%d)' % m, case=row)
         else:
             f = teneva.cdf_getter(np.array(c['smp'], dtype=float))
             ref = e['num'] / e['den']
